@@ -512,6 +512,46 @@ fn families(l: &Lang, thorough: bool) -> Acc {
             l.examine(&mut acc, &c, "family: keywords and function names", true);
         }
     }
+    // function nestings: every argument kind in every parameter position of the five functions, two levels deep,
+    // in every context a function expression can appear in
+    {
+        let fns = ["length", "count", "value", "match", "search"];
+        let arity = |f: &str| if f == "match" || f == "search" { 2 } else { 1 };
+        let simple: Vec<String> = ["1", "'a'", "null", "@.a", "@['a'][0]", "$.a", "@", "@.*", "@..a", "@[0,1]", "@[?@.a]", "@.a==1", "(@.a)", "!@.a", "@.a&&@.b"].iter().map(|s| s.to_string()).collect();
+        let mut level1: Vec<String> = vec![];
+        for f in fns {
+            if arity(f) == 1 {
+                for a in &simple {
+                    level1.push(format!("{}({})", f, a));
+                }
+            } else {
+                for a in &simple {
+                    for b in ["'x'", "@.b", "@.*", "1"] {
+                        level1.push(format!("{}({},{})", f, a, b));
+                    }
+                }
+                for b in &simple {
+                    level1.push(format!("{}(@.a,{})", f, b));
+                }
+            }
+        }
+        let mut level2: Vec<String> = vec![];
+        for f in fns {
+            for inner in &level1 {
+                if arity(f) == 1 {
+                    level2.push(format!("{}({})", f, inner));
+                } else {
+                    level2.push(format!("{}({},'x')", f, inner));
+                    level2.push(format!("{}(@.a,{})", f, inner));
+                }
+            }
+        }
+        for call in level1.iter().chain(level2.iter()) {
+            for c in [format!("$[?{}]", call), format!("$[?!{}]", call), format!("$[?{}==1]", call), format!("$[?true!={}]", call), format!("$[?({})||@.z]", call), format!("$[?{}=={}]", call, call)] {
+                l.examine(&mut acc, &c, "family: function nestings", true);
+            }
+        }
+    }
     for op in ["==", "!=", "<", "<=", ">", ">=", "=", "===", "<>", "!", "=<", "=>", "~=", "=~", "&&", "||", "&", "|", "and", "or", "not"] {
         for c in [format!("$[?@.a{}1]", op), format!("$[?@.a {} 1]", op), format!("$[?@.a{}@.b]", op), format!("$[?@.a {} @.b]", op), format!("$[?{}@.a]", op), format!("$[?{} @.a]", op)] {
             l.examine(&mut acc, &c, "family: operators", true);
